@@ -658,22 +658,23 @@ def saveFails (s : St) : Bool :=
     match q.2 with | .slot _ => true | _ => false))
 
 /-- a chain of runs: `parts = [k₁, …, k_m]` iterations each, linked by continuation files
-    (a continuation file is written after every run, also after the last one) -/
-def chain (fuel : Nat) (r : Recipe) : List Nat → Bool → St → Except Err St
+    (a continuation file is written between runs, and after the last one iff `finalSave`) -/
+def chain (fuel : Nat) (r : Recipe) (finalSave : Bool) : List Nat → Bool → St → Except Err St
   | [], _, s => .ok s
   | k :: ks, continued, s =>
     match iterations fuel r k { obj := none, vars := [] } continued s with
     | .error e => .error e
     | .ok (_, s1) =>
-      if saveFails s1 then .error (.recipe "cannot represent a slot in the continuation file")
-      else chain fuel r ks true (saveLoad s1)
+      if (finalSave || !ks.isEmpty) && saveFails s1 then
+        .error (.recipe "cannot represent a slot in the continuation file")
+      else chain fuel r finalSave ks true (saveLoad s1)
 
 structure Outcome where
   status : String            -- "ok" | "recipe_error" | "outside:<msg>" | "fuel"
   out : List OutRow
 
-def runChain (fuel : Nat) (r : Recipe) (parts : List Nat) : Outcome :=
-  match chain fuel r parts false (initSt r) with
+def runChain (fuel : Nat) (r : Recipe) (parts : List Nat) (finalSave : Bool := true) : Outcome :=
+  match chain fuel r finalSave parts false (initSt r) with
   | .ok s => { status := "ok", out := s.out }
   | .error (.recipe _) => { status := "recipe_error", out := [] }
   | .error (.outside m) => { status := "outside:" ++ m, out := [] }
